@@ -89,6 +89,9 @@ CONTEXTS = {
     "drop": "{C} (tuple :d{V})",
     "set": "(tuple (set x {C}) x{V})",
     "if": "(if {C} :T :F)",
+    # the value of the conditional is bound but never read: its stores are dead, the clean-up passes delete them and
+    # must re-target the jumps around them
+    "ifdead": "(def r (if {C} :T :F)) (tuple :d{V})",
     "while": "(var n 0) (while {C} (++ n) (if (>= n 2) (break))) (tuple n{V})",
     # a closure made in the loop body: the compiler throws the loop away and compiles it again as a
     # recursive function, the condition included; n is then an upvalue
@@ -179,7 +182,7 @@ class Tier:
         # ---- contexts section
         self.vctx = ["1", "nil", "false", "M1"] if q else ["1", "128", "nil", "false", "M1", "S3"]
         self.vctx3 = ["1"] if q else ["1", "nil", "M1"]
-        self.ctxs = ["val", "drop", "set", "if", "while", "whilec", "up", "upt", "setg", "far", "farset"]
+        self.ctxs = ["val", "drop", "set", "if", "ifdead", "while", "whilec", "up", "upt", "setg", "far", "farset"]
         # ---- alias section
         self.valias = (["x", "v", "vm", "M3", "1"] if q else ["x", "v", "vm", "M3", "1", "128", "M2"])
         self.alias_max = 3
@@ -243,11 +246,11 @@ def fixed_value_space(f, tier):
             yield vs
     elif f in ("in", "get"):
         dss = ["TUP", "STR", "@[10 20]", "@{:a 1 :b false}", '"ab"', ":kw", "nil", "1", "S3", "M1", '@"ab"']
-        keys = ["0", "1", "2", "-1", ":a", ":zz", "nil", "1.5", '"s"', ":+"]
+        keys = ["0", "1", "2", "-1", ":a", ":b", ":zz", "nil", "1.5", '"s"', ":+"]
         dfl = ["nil", ":d", "false", "M1"]
         if q:
             dss = ["TUP", "STR", "@[10 20]", "@{:a 1 :b false}", '"ab"', "nil", "S3"]
-            keys = ["0", "2", "-1", ":a", ":zz", "nil"]
+            keys = ["0", "2", "-1", ":a", ":b", ":zz", "nil"]      # :b holds false in the table operand
             dfl = ["nil", ":d", "false"]
         for vs in product(dss, keys):
             yield vs
@@ -353,7 +356,7 @@ def context_cases(f, tier):
             for vs in list(product(nilvals, repeat=2)) + [("nil", "nil", "nil"), ("nil", "1", "nil"), ("nil",)]:
                 n = len(vs)
                 sp = []
-                for c in ("if", "while", "whilec", "val", "tail"):
+                for c in ("if", "ifdead", "while", "whilec", "val", "tail"):
                     for p in all_patterns(n) if n <= 2 else LATIN3:
                         sp.append((p, c, "ref"))
                         sp.append((p, c, "fv"))
